@@ -908,14 +908,29 @@ func c12Percentile(c *Ctx, p *Prog) {
 	site := p.pos(fn.Pos())
 	sortedF := p.Field("internal/stats", "Sample", "Sorted")
 	xsF := p.Field("internal/stats", "Sample", "Xs")
+	// the interpolation proper: in Percentile, or in a helper of the package it hands the values and p to
+	body, pParam := fn, ssa.Value(fn.Params[1])
+	if len(callsIn(fn, "math", "", "Modf")) == 0 {
+		eachInstr(fn, func(_ *ssa.BasicBlock, in ssa.Instruction) {
+			if call, ok := in.(*ssa.Call); ok {
+				if h := call.Call.StaticCallee(); h != nil && h.Pkg == fn.Pkg && h.Blocks != nil && len(callsIn(h, "math", "", "Modf")) > 0 {
+					for i, a := range call.Call.Args {
+						if a == ssa.Value(fn.Params[1]) && i < len(h.Params) {
+							body, pParam = h, h.Params[i]
+						}
+					}
+				}
+			}
+		})
+	}
 	// R8 position: the argument of math.Modf
 	n := 0
-	for _, call := range callsIn(fn, "math", "", "Modf") {
+	for _, call := range callsIn(body, "math", "", "Modf") {
 		n++
 		arg := call.Common().Args[0]
 		// rebuild as a Sym by a tiny walk
 		sym := symOfValue(arg, func(v ssa.Value) *Sym {
-			if v == fn.Params[1] {
+			if v == pParam {
 				return &Sym{Op: "param", Name: "p"}
 			}
 			if cv, ok := v.(*ssa.Convert); ok {
@@ -952,7 +967,7 @@ func c12Percentile(c *Ctx, p *Prog) {
 	c.Floor("C12/R2", "R8 position computations", n, 1)
 	// interpolation: Xs[k-1] + frac*(Xs[k]-Xs[k-1]) over the reals
 	okI := false
-	for _, b := range fn.Blocks {
+	for _, b := range body.Blocks {
 		ret, ok := b.Instrs[len(b.Instrs)-1].(*ssa.Return)
 		if !ok {
 			continue
